@@ -6,6 +6,7 @@ CONSTANTS
   Kinds = {"text"}
   LastBy = "index"
   ResetIdx = TRUE
+  OpsAtEnd = 2
   Interleave = TRUE
   BadArgs = FALSE
 INVARIANTS HistoryIndependent MarkdownEquivalent NoDuplicateSiblings
